@@ -446,6 +446,12 @@ def run(ctx, rep):
     check_stream_end(ctx, rep, 'R08.9', lf)
     rep.rule('R08.10', 'the program ends only where the tokens end: parse() answers Ok only after it found the end-of-input token (a stray `}` or any other token is not the end of the program)')
     check_program_end(ctx, rep, 'R08.10')
+    rep.rule('R08.11', 'what a literal denotes is decided by its token alone: no branch of the parser (the decoding of a string literal included) depends on state of the tokenizer - a flag, a position - that has moved on to the next token by the time the parser looks')
+    from rules import c07 as _c07
+    _c07.check_tokens_only(ctx, rep, 'R08.11')
+    rep.rule('R08.12', 'a literal is decoded character by character: no single byte of the text is turned into a character unless it was tested to be ASCII')
+    from rules import c13 as _c13
+    _c13.check_no_byte_chars(ctx, rep, 'R08.12')
 
     # ---- R08.7 skipping ------------------------------------------------------------------------
     rep.ob(set(PATTERN_WHITE_SPACE) <= set(lf['skipped']), 'R08.7', fnp, 'whitespace arm', 'whitespace restarts the scan without a token', loc)
